@@ -15,14 +15,17 @@ mod local_function;
 
 use crate::emit::{Emit, EmitContext};
 use crate::error::Result;
-use crate::ir::InstrLocId;
+use crate::ir::{self, InstrLocId};
 use crate::module::imports::ImportId;
 use crate::module::Module;
 use crate::parse::IndicesToIds;
 use crate::tombstone_arena::{Id, Tombstone, TombstoneArena};
 use crate::ty::TypeId;
 use crate::ty::ValType;
-use crate::{ExportItem, FunctionBuilder, InstrSeqBuilder, LocalId, Memory, MemoryId};
+use crate::{
+    ConstExpr, ElementItems, ElementKind, ExportItem, FunctionBuilder, GlobalKind, InstrSeqBuilder,
+    LocalId, Memory, MemoryId,
+};
 
 pub use self::local_function::LocalFunction;
 
@@ -494,9 +497,60 @@ impl Module {
             // Mutate the existing export to use the new local function
             let export = self.exports.get_mut(original_export_id);
             export.item = ExportItem::Function(new_fn_id);
+
+            // That export may have been the only thing that declared the
+            // original function as a possible `ref.func` target.
+            self.keep_declared_for_ref_func(fid);
             Ok(new_fn_id)
         } else {
             bail!("cannot replace function [{fid:?}], it is not an exported function");
+        }
+    }
+
+    /// A function that code refers to with `ref.func` has to be declared outside of
+    /// function bodies: exported, or mentioned in an element segment or a global
+    /// initializer. If `fid` is still referred to that way but no longer declared,
+    /// list it in a new declared element segment.
+    fn keep_declared_for_ref_func(&mut self, fid: FunctionId) {
+        let declared =
+            self.exports
+                .iter()
+                .any(|e| matches!(e.item, ExportItem::Function(f) if f == fid))
+                || self.elements.iter().any(|e| match &e.items {
+                    ElementItems::Functions(funcs) => funcs.contains(&fid),
+                    ElementItems::Expressions(_, exprs) => exprs
+                        .iter()
+                        .any(|e| matches!(e, ConstExpr::RefFunc(f) if *f == fid)),
+                })
+                || self.globals.iter().any(
+                    |g| matches!(g.kind, GlobalKind::Local(ConstExpr::RefFunc(f)) if f == fid),
+                );
+        if declared {
+            return;
+        }
+
+        struct Finder {
+            target: FunctionId,
+            found: bool,
+        }
+        impl<'instr> ir::Visitor<'instr> for Finder {
+            fn visit_ref_func(&mut self, instr: &ir::RefFunc) {
+                self.found |= instr.func == self.target;
+            }
+        }
+        let mut finder = Finder {
+            target: fid,
+            found: false,
+        };
+        for (_, func) in self.funcs.iter_local() {
+            ir::dfs_in_order(&mut finder, func, func.entry_block());
+            if finder.found {
+                break;
+            }
+        }
+        if finder.found {
+            self.elements
+                .add(ElementKind::Declared, ElementItems::Functions(vec![fid]));
         }
     }
 
